@@ -65,10 +65,10 @@ RESOLVER_NOTE = (" The resolver model covers the language fragment: global label
 CLAIMED["C01"] = {
   "text": "The language definition is an executable two-phase denotation (static layout, then constants by knowledge-monotone sweeps, then every encoding once, then a strict "
           "self-consistency check). PROVED for all programs of the modelled fragment (C01_sound): if the assembler model produces output for a program inside the size-static fragment, the definition produces exactly the same bits and "
-          "symbol values (static_size_sound, uniqueness of the certified state, completeness of the definition w.r.t. certified states), and a program the definition rejects is never assembled (C01_rejects); hypotheses: rules parsed by the model's "
+          "symbol values (static_size_sound, uniqueness of the certified state, completeness of the definition w.r.t. certified states), a program the definition rejects is never assembled (C01_rejects), and conversely whatever the definition accepts is assembled to the same bits and symbols within the executable budget bound budget_total = 3 + longest syntactic knowledge chain of the constants (C01_complete, tight by C01_complete_needs_budget); hypotheses: rules parsed by the model's "
           "rule parser, no production assigns to its own parameter (without it the statement is refuted: F71), acyclic constants, canonical data numbering. Decided on every run: implementation = extracted definition (success, bits, symbols AND "
-          "rejections incl. the tie class) = extracted resolver model on size-static G-isa x G-prog with operands at every typed range boundary.",
-  "design_ref": "6/C01", "note": COMMON_NOTE + RESOLVER_NOTE + " C01_complete (a budget bound under which the assembler does find the definition's answer) is not proved. Known finding F71.",
+          "rejections incl. the tie class) = extracted resolver model on size-static G-isa x G-prog with operands at every typed range boundary; implementation with the static optimisation off at budget budget_total (extracted) = definition, pass count within the bound.",
+  "design_ref": "6/C01", "note": COMMON_NOTE + RESOLVER_NOTE + " Known finding F71; F77 found while proving C01_complete (fixed).",
   "technique": "Coq proof (state invariants, fixed-point lemmas) for the certified-state part + differential correspondence implementation / extracted denotation / extracted model"}
 CLAIMED["C02"] = {
   "text": "Proved for every program, budget and matcher mode of the model: a pass that reports 'resolved' changes nothing (all stability tests compare value and size), every success of "
